@@ -64,6 +64,9 @@ pub enum Op {
     UpdateSnapshots,
     /// Removes a publisher (and its objects) at the publication server.
     RemovePublisher { publisher: String },
+    /// From now on a tie between equally-earliest due tasks goes to the task
+    /// whose queue name contains `pat` (empty: back to the seeded choice).
+    Prefer { pat: String },
 }
 
 impl Op {
@@ -97,6 +100,7 @@ impl Op {
             Op::Quiesce => "quiesce",
             Op::UpdateSnapshots => "update_snapshots",
             Op::RemovePublisher { .. } => "remove_publisher",
+            Op::Prefer { .. } => "prefer",
         }
     }
 }
@@ -323,6 +327,10 @@ fn apply_inner(w: &mut World, op: &Op) -> Result<(), String> {
                 krill::server::mq::Task::UpdateSnapshots,
                 krill::server::mq::now()
             ).map_err(e)
+        }
+        Op::Prefer { pat } => {
+            w.prefer = if pat.is_empty() { None } else { Some(pat.clone()) };
+            Ok(())
         }
         Op::RemovePublisher { publisher } => {
             w.krill.repo_manager().remove_publisher(
